@@ -14,6 +14,7 @@ import (
 	"github.com/form3tech-oss/f1/v2/internal/trigger/ramp"
 	"github.com/form3tech-oss/f1/v2/internal/trigger/staged"
 	"github.com/form3tech-oss/f1/v2/internal/verifharness/hlib"
+	"github.com/form3tech-oss/f1/v2/internal/verifshim/vtime"
 )
 
 type stage struct {
@@ -342,6 +343,18 @@ func calculatorSuite() hlib.Suite {
 			var total time.Duration
 			for _, s := range stages {
 				total += s.Duration
+			}
+			// the trigger's total duration, for start times before, at and after the present moment
+			// (the code's own clock: the virtual clock's epoch outside a run)
+			for _, rel := range []time.Duration{-1000 * time.Hour, -time.Hour, -total, -total + 1, -total / 2, -time.Second, -1, 0, 1, time.Second, time.Hour} {
+				st := vtime.Now().Add(rel)
+				rates, err := staged.CalculateStagedRate(0, time.Second, str, "none", &st)
+				r.Step()
+				if err != nil {
+					r.Fail("C10/harness", "build", err.Error(), str)
+				} else if rates.Duration != total {
+					r.Fail("C10/staged-duration", "not-sum/start-relative-to-now", fmt.Sprintf("start time = now%+d ns: Duration %s, the stages sum to %s", int64(rel), rates.Duration, total), str)
+				}
 			}
 			start := t0
 			calc := staged.NewRateCalculator(stages, &start)
